@@ -11,12 +11,16 @@
                      encoding e)
    [norm t v]      : the equivalent value a decode/encode cycle yields (unknown fields dropped
                      unless the struct has a fallback, an optional field holding None = absent)
-   NOT theorems here: "the generated Rust code compiles" (decided by rustc on a corpus, see
-   checks/c16.py) and the old/new clause across two different types (see design/C16.md: monitored
-   on the real generated types and compared with the model on every pair case). *)
+   [evolves t_old t_new]  : t_new is t_old with fields / variants added at any nesting level
+                     (Derive/Evolve.v; = the inductive [Evolves], C16_evolves_iff)
+   [all_fallback t_old]   : every struct and enum of t_old has a fallback (the harness' KEEPS)
+   [evolves_keeping t_old t_new] : [evolves] + a fallback in t_old wherever t_new added
+                     something or has a fallback itself (follows from evolves + all_fallback)
+   NOT a theorem here: "the generated Rust code compiles" (decided by rustc on a corpus, see
+   checks/c16.py). *)
 From Aldrin Require Import Codec.Base Codec.Value Codec.Ser Codec.De.
 From Aldrin Require Import Derive.Ty Derive.TDe Derive.TSer Derive.Conforms Derive.TDeTotal Derive.DocAttr
-  Derive.DocAttrProofs Props.C16_lemmas.
+  Derive.DocAttrProofs Derive.Evolve Derive.EvolveRel Props.C16_lemmas.
 Open Scope N_scope.
 
 (* the generated decoder DECIDES conformance on serialized values: at any depth, before any
@@ -77,6 +81,62 @@ Theorem C16_unknown_ids_tolerated : forall fs fb l id x,
 Proof. exact unknown_field_tolerated. Qed.
 Print Assumptions C16_unknown_ids_tolerated.
 
+(* ---------- data of a newer schema version survives code generated from an older one ---------- *)
+(* v is a value of the NEWER type t_new, sent (either encoding) to code generated from the OLDER type
+   t_old: that code accepts it, and what it re-encodes is read by the newer type as EXACTLY the
+   typed value x_new the newer type reads from the original bytes — captured SerializedValues
+   byte for byte — so re-encoding x_new yields the direct normalisation [norm t_new v] *)
+Theorem C16_old_new : forall e t_old t_new v bs, wf_ty t_old = true -> wf_ty t_new = true ->
+  evolves_keeping t_old t_new = true -> wf true v = true -> conforms t_new v = true -> serialize e v = Ok bs ->
+  exists x_old bs' x_new bs'',
+    tde_top t_old bs = Ok x_old /\ tser_top t_old x_old = Ok bs' /\
+    tde_top t_new bs' = Ok x_new /\ tde_top t_new bs = Ok x_new /\
+    tser_top t_new x_new = Ok bs'' /\ de_as_value true bs'' = Ok (norm t_new v).
+Proof. exact old_new. Qed.
+Print Assumptions C16_old_new.
+
+(* the same under the condition the harness labels a pair case KEEPS with *)
+Theorem C16_old_new_all_fallback : forall e t_old t_new v bs, wf_ty t_old = true -> wf_ty t_new = true ->
+  evolves t_old t_new = true -> all_fallback t_old = true ->
+  wf true v = true -> conforms t_new v = true -> serialize e v = Ok bs ->
+  exists x_old bs' x_new bs'',
+    tde_top t_old bs = Ok x_old /\ tser_top t_old x_old = Ok bs' /\
+    tde_top t_new bs' = Ok x_new /\ tde_top t_new bs = Ok x_new /\
+    tser_top t_new x_new = Ok bs'' /\ de_as_value true bs'' = Ok (norm t_new v).
+Proof. exact old_new_all_fallback. Qed.
+Print Assumptions C16_old_new_all_fallback.
+
+(* the evolution relation: boolean = inductive; reflexive; the older type accepts what the newer accepts *)
+Theorem C16_evolves_iff : forall t_old t_new, evolves t_old t_new = true <-> Evolves t_old t_new.
+Proof. exact evolves_iff. Qed.
+Print Assumptions C16_evolves_iff.
+
+Theorem C16_evolves_keeping_refl : forall t, wf_ty t = true -> evolves_keeping t t = true.
+Proof. exact evolves_keeping_refl. Qed.
+Print Assumptions C16_evolves_keeping_refl.
+
+Theorem C16_old_accepts_what_new_accepts : forall v t_old t_new,
+  evolves_keeping t_old t_new = true -> conforms t_new v = true -> conforms t_old v = true.
+Proof. exact evolves_conforms. Qed.
+Print Assumptions C16_old_accepts_what_new_accepts.
+
+(* the negative side, without a fallback in the older type: a variant it does not know is
+   rejected, and a struct comes back with only the fields it knows (every other field is lost) *)
+Theorem C16_old_rejects_new_variant : forall e vs_old id x bs,
+  wf_ty (TEnum vs_old false) = true -> wf true (VEnum id x) = true ->
+  find_variant vs_old id = None -> serialize e (VEnum id x) = Ok bs ->
+  exists err, tde_top (TEnum vs_old false) bs = Err err.
+Proof. exact old_rejects_new_variant. Qed.
+Print Assumptions C16_old_rejects_new_variant.
+
+Theorem C16_old_drops_without_fallback : forall e fs_old l bs,
+  wf_ty (TStruct fs_old false) = true -> wf true (VStruct l) = true ->
+  conforms (TStruct fs_old false) (VStruct l) = true -> serialize e (VStruct l) = Ok bs ->
+  exists x bs' l', tde_top (TStruct fs_old false) bs = Ok x /\ tser_top (TStruct fs_old false) x = Ok bs' /\
+    de_as_value true bs' = Ok (VStruct l') /\ forall id y, In (id, y) l' -> known_field fs_old id = true.
+Proof. exact old_drops_without_fallback. Qed.
+Print Assumptions C16_old_drops_without_fallback.
+
 (* the model decoder is total: fuel = length + 1 never runs out, on ANY byte string *)
 Theorem C16_total : forall t b, tde_top t b <> Err Fuel.
 Proof. exact tde_total. Qed.
@@ -123,3 +183,61 @@ Example C16_fallback_instance :
   (bs <- serialize E1 ex_v ;; x <- tde_top ex_fb bs ;; bs' <- tser_top ex_fb x ;; de_as_value true bs') =
   Ok (norm ex_fb ex_v).
 Proof. vm_compute. split; reflexivity. Qed.
+
+(* ---------- old/new instances ---------- *)
+Definition via (t_old t_new : ty) (e : epoch) (v : Value) : result tval :=
+  bs <- serialize e v ;; x1 <- tde_top t_old bs ;; bs' <- tser_top t_old x1 ;; tde_top t_new bs'.
+Definition direct (t_new : ty) (e : epoch) (v : Value) : result tval := bs <- serialize e v ;; tde_top t_new bs.
+Definition back (t_old t_new : ty) (e : epoch) (v : Value) : result Value :=
+  x2 <- via t_old t_new e v ;; bs'' <- tser_top t_new x2 ;; de_as_value true bs''.
+
+(* a struct with added fields (required 5, optional 6), nested: an enum inside option<vec<..>> with
+   added variants 7 (payload) and 8 (unit); ids 9 / 99 are unknown to both versions *)
+Definition en_old := TEnum [(0, None); (1, Some (TLeaf (LInt U8)))] true.
+Definition en_new := TEnum [(7, Some (TVec (TLeaf LString))); (0, None); (1, Some (TLeaf (LInt U8))); (8, None)] true.
+Definition st_old := TStruct [(1, (true, TLeaf (LInt U8))); (2, (false, TLeaf LString)); (3, (false, TVec en_old));
+                              (4, (true, TValue))] true.
+Definition st_new := TStruct [(5, (true, TVec (TLeaf (LInt U16)))); (2, (false, TLeaf LString)); (3, (false, TVec en_new));
+                              (1, (true, TLeaf (LInt U8))); (6, (false, TMap (KInt U8) TValue)); (4, (true, TValue))] true.
+Definition st_v := VStruct [(5, VVec [VInt U16 300; VInt U16 1]); (9, VSet (KInt U16) [KeyZ 300]); (2, VNone);
+                            (6, VSome (VMap (KInt U8) [(KeyZ 3, VVec [VNone])]));
+                            (3, VSome (VVec [VEnum 7 (VVec [VString [65]]); VEnum 0 VNone; VEnum 8 VNone;
+                                             VEnum 99 (VVec [VBool true])]));
+                            (4, VStruct [(1, VVec [])]); (1, VInt U8 7)].
+
+Example C16_old_new_nonvacuous :
+  wf_ty st_old = true /\ wf_ty st_new = true /\ evolves st_old st_new = true /\ all_fallback st_old = true /\
+  evolves_keeping st_old st_new = true /\ evolves st_new st_old = false /\
+  wf true st_v = true /\ conforms st_new st_v = true.
+Proof. vm_compute. repeat split; reflexivity. Qed.
+
+(* both encodings: the newer type reads the same through the older code as directly, and the value
+   comes back as the direct normalisation *)
+Example C16_old_new_instance :
+  via st_old st_new E1 st_v = direct st_new E1 st_v /\ back st_old st_new E1 st_v = Ok (norm st_new st_v) /\
+  via st_old st_new E2 st_v = direct st_new E2 st_v /\ back st_old st_new E2 st_v = Ok (norm st_new st_v) /\
+  exists x, direct st_new E1 st_v = Ok x.
+Proof. vm_compute. repeat split; try reflexivity. eexists; reflexivity. Qed.
+
+(* an enum at the root: the added variant 7 passes through the older enum's fallback *)
+Example C16_old_new_variant_instance :
+  evolves_keeping en_old en_new = true /\
+  via en_old en_new E1 (VEnum 7 (VVec [VString [65; 66]])) = Ok (XEnum 7 (XVec [XLeaf (VString [65; 66])])) /\
+  (bs <- serialize E1 (VEnum 7 (VVec [VString [65; 66]])) ;; tde_top en_old bs) = Ok (XUnknown 7 [17; 1; 13; 2; 65; 66]).
+Proof. vm_compute. repeat split; reflexivity. Qed.
+
+(* the same older struct WITHOUT fallback: not keeping; the added required field 5 is dropped and
+   the newer type rejects the result; with only the optional field 6 added the value comes back
+   without it — different from the direct normalisation *)
+Definition st_old_nofb := TStruct [(1, (true, TLeaf (LInt U8))); (2, (false, TLeaf LString)); (3, (false, TVec en_old));
+                                   (4, (true, TValue))] false.
+Definition st_new6 := TStruct [(2, (false, TLeaf LString)); (3, (false, TVec en_new)); (1, (true, TLeaf (LInt U8)));
+                               (6, (false, TMap (KInt U8) TValue)); (4, (true, TValue))] false.
+Definition st_v6 := VStruct [(6, VSome (VMap (KInt U8) [(KeyZ 3, VNone)])); (4, VNone); (1, VInt U8 7)].
+Example C16_old_new_drop_instance :
+  evolves st_old_nofb st_new = true /\ evolves_keeping st_old_nofb st_new = false /\
+  via st_old_nofb st_new E2 st_v = Err Invalid /\
+  evolves st_old_nofb st_new6 = true /\ evolves_keeping st_old_nofb st_new6 = false /\ conforms st_new6 st_v6 = true /\
+  back st_old_nofb st_new6 E2 st_v6 = Ok (VStruct [(1, VInt U8 7); (4, VNone)]) /\
+  norm st_new6 st_v6 = VStruct [(1, VInt U8 7); (6, VSome (VMap (KInt U8) [(KeyZ 3, VNone)])); (4, VNone)].
+Proof. vm_compute. repeat split; reflexivity. Qed.
